@@ -34,13 +34,48 @@ NAMES = ["a", "b", "c", "d"]
 ARRAY_DETS = {"ADWIN": 20, "CUSUM": 20, "PageHinkley": 20, "KdqTreeStreaming": 14, "PCACD": 5, "KdqTreeBatch": 14, "HDDDM": 20,
               "CDBD": 16, "NNDVI": 12}
 LABEL_DETS = {"DDM": 10, "EDDM": 10, "STEPD": 10, "LinearFourRates": 4, "ADWINAccuracy": 8}
+ENSEMBLES = {"BatchEnsemble": 14, "StreamingEnsemble": 14}   # members that store what they are given, behind (view-returning) selectors
+
+
+def _kind(name):
+    return {"BatchEnsemble": "batch", "StreamingEnsemble": "xx"}.get(name) or adapters.kind(name)
+
+
+def _build(name, cfg):
+    if name == "BatchEnsemble":
+        from menelaus.data_drift import HDDDM, NNDVI, KdqTreeBatch
+        from menelaus.ensemble import BatchEnsemble, SimpleMajorityElection
+
+        members = {"nndvi": NNDVI(k_nn=2, sampling_times=8, alpha=0.2), "kdq": KdqTreeBatch(alpha=0.2, bootstrap_samples=6, count_ubound=3),
+                   "hdddm": HDDDM(detect_batch=2, subsets=3), "nndvi_sliced": NNDVI(k_nn=2, sampling_times=8, alpha=0.2)}
+        sel = {"nndvi_sliced": (lambda X: X.iloc[:, :1] if hasattr(X, "iloc") else X[:, :1])}   # a basic slice: a view of the caller's array
+        return BatchEnsemble(members, SimpleMajorityElection(), sel if cfg.get("selectors") else {})
+    if name == "StreamingEnsemble":
+        from menelaus.change_detection import CUSUM, PageHinkley
+        from menelaus.data_drift import KdqTreeStreaming
+        from menelaus.ensemble import MinimumApprovalElection, StreamingEnsemble
+
+        first = lambda X: X.iloc[:, :1] if hasattr(X, "iloc") else X[:, :1]  # noqa: E731
+        members = {"cusum": CUSUM(burn_in=6, threshold=4), "ph": PageHinkley(burn_in=3, threshold=2),
+                   "kdq": KdqTreeStreaming(window_size=5, alpha=0.2, bootstrap_samples=6, count_ubound=2)}
+        return StreamingEnsemble(members, MinimumApprovalElection(1), {"cusum": first, "ph": first})
+    return adapters.build(name, cfg)
+
+
+def _observe(det):
+    if hasattr(det, "detectors"):
+        o = {"state": det.drift_state if hasattr(det, "drift_state") else None}
+        for k_, m in det.detectors.items():
+            o[k_] = adapters.observe(m)
+        return o
+    return adapters.observe(det)
 CONTAINERS = ["C", "F", "view", "df", "df_mixed"]
 STREAM_1D = ["nd1", "rowview", "series"]   # one observation in a 1-D container (streaming detectors only)
 
 
 def scenarios(tier):
     k = 1 if tier == "quick" else 8
-    out = [(n, v * k) for n, v in {**ARRAY_DETS, **LABEL_DETS}.items()]
+    out = [(n, v * k) for n, v in {**ARRAY_DETS, **LABEL_DETS, **ENSEMBLES}.items()]
     out.append(("injectors", 150 * k))
     return out
 
@@ -50,6 +85,16 @@ def gen(rng, scenario, tier):
     if scenario == "injectors":
         return gen_injectors(rng)
     name = scenario
+    if name in ENSEMBLES:
+        ev = []
+        if name == "BatchEnsemble":
+            bs, _ = workload.batches(rng, rng.randint(5, 9), 2, 8, 20, drift_rate=0.5)
+            for j, b in enumerate(bs):
+                ev.append([b, rng.choice(["C", "F", "view", "df"]), np_seed(rng)] + (["ref"] if (j > 0 and rng.random() < 0.12) else []))
+        else:
+            xs, _ = workload.mv_stream(rng, rng.randint(20, 40), 2, drift_rate=0.1)
+            ev = [[x, rng.choice(["C", "F", "view", "df"]), np_seed(rng)] for x in xs]   # (the selectors index two dimensions)
+        return {"det": name, "cfg": {"selectors": rng.random() < 0.7}, "events": ev}
     cfg = adapters.sample_cfg(rng, name)
     k = adapters.kind(name)
     if name == "PCACD":
@@ -160,7 +205,7 @@ def make_y(v, tag):
 # ----------------------------------------------------------------------------------------- execution
 def _run_history(ctx, name, cfg, k, events, scribble_at, base=None):
     """scribble_at: None (twin on private copies), 'all', or an int position.  Returns the trace."""
-    det = adapters.build(name, cfg) if base is not None else ctx.call(f"C15:{name}:ctor", adapters.build, name, cfg)
+    det = _build(name, cfg) if base is not None else ctx.call(f"C15:{name}:ctor", _build, name, cfg)
     live = []
     trace = []
     drift_after_scribble = False
@@ -180,6 +225,8 @@ def _run_history(ctx, name, cfg, k, events, scribble_at, base=None):
                 det.update(objs[0], objs[1])
             elif is_ref:
                 det.set_reference(objs[0])
+            elif name == "StreamingEnsemble":
+                det.update(objs[0], 1, 1)
             else:
                 det.update(objs[0])
         except Exception as e:  # noqa: BLE001
@@ -198,7 +245,7 @@ def _run_history(ctx, name, cfg, k, events, scribble_at, base=None):
                 ctx.violation("mutated", f"C15:{name}:{tag}:input_modified",
                               f"call {i}: the {tag} object passed to {'set_reference' if is_ref else 'update'} was modified by the call; cfg={cfg}")
                 raise EndRun()
-        obs = canon(adapters.observe(det))
+        obs = canon(_observe(det))
         trace.append(obs)
         if base is not None and obs != base[i]:
             ctx.violation("live_reference", f"C15:{name}:output_follows_caller_data",
@@ -221,7 +268,7 @@ def run(case, ctx):
     if case.get("scenario") == "injectors" or "calls" in case:
         return run_injectors(case, ctx)
     name, cfg, events = case["det"], case["cfg"], case["events"]
-    k = adapters.kind(name)
+    k = _kind(name)
     base, _ = _run_history(ctx, name, cfg, k, events, None)
     if "scribble_at" in case:
         _run_history(ctx, name, cfg, k, events, case["scribble_at"], base)
@@ -370,7 +417,7 @@ def shrink(case):
             yield c
         return
     j = case["scribble_at"]
-    first = 1 if adapters.kind(case["det"]) == "batch" else 0
+    first = 1 if _kind(case["det"]) == "batch" else 0
     for i in range(len(ev) - 1, first - 1, -1):
         if i == j:
             continue
